@@ -153,26 +153,46 @@ func c04r3(c *Ctx) {
 	r := getChainRoles(c.P)
 	ru := c.P.Named("chain", "RevertUpdate")
 	au := c.P.Named("chain", "ApplyUpdate")
-	for _, f := range r.methods {
+	for _, f := range r.methodsV {
 		if !exported(f) || f.Type.Results == nil {
 			continue
 		}
 		// results ([]RevertUpdate, []ApplyUpdate, error)
 		var resObjs []types.Object
 		var kinds []types.Type
+		var positions []int
+		pos := 0
 		for _, fld := range f.Type.Results.List {
+			k := len(fld.Names)
+			if k == 0 {
+				k = 1
+			}
 			if sl, ok := f.Info().TypeOf(fld.Type).(*types.Slice); ok && (types.Identical(sl.Elem(), ru) || types.Identical(sl.Elem(), au)) {
 				for _, nm := range fld.Names {
 					resObjs = append(resObjs, f.Info().Defs[nm])
 				}
 				kinds = append(kinds, sl.Elem())
+				for i := 0; i < k; i++ {
+					positions = append(positions, pos+i)
+				}
 			}
+			pos += k
 		}
 		if len(kinds) != 2 {
 			continue
 		}
 		g := f.Graph()
 		c.VisitGraph(f)
+		// unnamed results: the local lists handed back by the returns
+		for _, ret := range g.Returns() {
+			if rs, ok := ret.AST.(*ast.ReturnStmt); ok && len(rs.Results) == pos {
+				for _, i := range positions {
+					if o, ok := f.ObjOf(rs.Results[i]).(*types.Var); ok {
+						resObjs = append(resObjs, o)
+					}
+				}
+			}
+		}
 		isRes := func(o types.Object) bool {
 			for _, x := range resObjs {
 				if x == o && o != nil {
